@@ -7,6 +7,7 @@ mod c05;
 mod c13;
 mod c15;
 mod c19;
+mod c20;
 mod c17;
 mod c18;
 mod frag;
@@ -37,6 +38,7 @@ fn main() {
         "c15-spec" => c15::spec(rest),
         "alias-ops" => c15::ops(rest),
         "c19-gen" => c19::gen(rest),
+        "c20-gen" => c20::gen(rest),
         "c13-spec" => c13::spec(rest),
         "c17-spec" => c17::spec(rest),
         "c06-spec" => props::c06(rest),
